@@ -363,19 +363,6 @@ Example ex_set_frame :
 Proof. repeat split; reflexivity. Qed.
 
 (* ---------- the frame of ANY parse, successful or not ---------- *)
-(* the top-level key a name=value pair starts with, as runesUntil reads it *)
-Definition first_key (c : pcfg) (s : string) : string :=
-  match pmode_of c with
-  | MLiteral => fst (fst (runes_until false stop_key_lit s))
-  | _ => fst (fst (runes_until true stop_key s))
-  end.
-
-Definition kres_table (r : kres) (d0 : vmap) : vmap :=
-  match r with KOk d _ | KEof d | KErr d => d | KFuel => d0 end.
-
-Definition pres_table (r : pres) (d0 : vmap) : vmap :=
-  match r with POk d | PErr d => d | PFuel => d0 end.
-
 Lemma mget_set_other : forall k k' v d, k' <> k -> mget k' (set k v d) = mget k' d.
 Proof. intros [|a t] k' v d H; [reflexivity|]. apply mget_mset_neq. congruence. Qed.
 
@@ -395,18 +382,6 @@ Proof.
      try reflexivity;
      rewrite ?mget_set_other by assumption; rewrite ?mget_mset_neq by (apply Hneq; assumption); try reflexivity).
 Qed.
-
-(* the keys the successive pairs start with, as far as the parser gets *)
-Fixpoint heads (f : nat) (c : pcfg) (d : vmap) (s : string) : list string :=
-  match f with
-  | O => []
-  | S f' =>
-      first_key c s ::
-      match key (S (String.length s)) c d 0 s with
-      | KOk d' rest => heads f' c d' rest
-      | _ => []
-      end
-  end.
 
 Lemma heads_S : forall f c d s,
   heads (S f) c d s =
